@@ -358,6 +358,61 @@ func decide(c layoutCase) *rp.Fail {
 			}
 		}
 	}
+	// decoded values are the caller's own: writing through the pointer fields of one decoded value changes neither another
+	// decoded value nor what any later decoding returns (variables that were used before, blank values on the wire)
+	{
+		zeroMsg := make([]byte, 64)
+		zeroMsg[0], zeroMsg[1] = enc[0], enc[1]
+		for _, f := range c.Fields {
+			if f.Kind == "u8fixed" {
+				zeroMsg[f.Off] = enc[f.Off]
+			}
+		}
+		used := func() reflect.Value {
+			v := reflect.New(typ)
+			if codec.Unmarshal(append([]byte(nil), enc...), v.Interface()) != nil || codec.Unmarshal(append([]byte(nil), zeroMsg...), v.Interface()) != nil {
+				return reflect.Value{}
+			}
+			return v
+		}
+		a, b := used(), used()
+		if a.IsValid() && b.IsValid() {
+			before := fv.CanonAll(b.Elem())
+			wrote := 0
+			for i, f := range c.Fields {
+				if f.Kind[0] != '*' {
+					continue
+				}
+				if pa, src := c.locate(a.Elem(), i), c.locate(out.Elem(), i); pa.Kind() == reflect.Ptr && !pa.IsNil() && src.Kind() == reflect.Ptr && !src.IsNil() {
+					pa.Elem().Set(src.Elem())
+					wrote++
+				}
+			}
+			if wrote > 0 {
+				ev.Class("decoded-values/written-through-pointer-fields", 1)
+				if d := fv.FirstDiff(before, fv.CanonAll(b.Elem())); d != "" {
+					return rp.Failf(site+"/decoded-values-share-memory", "layout %s: writing through the pointer fields of one decoded value changed another decoded value: %s", describe(c), d)
+				}
+				again := used()
+				if again.IsValid() {
+					if d := fv.FirstDiff(before, fv.CanonAll(again.Elem())); d != "" {
+						return rp.Failf(site+"/decoded-values-share-memory", "layout %s: after a caller wrote through the pointer fields of an earlier decoded value, the same messages decode differently: %s", describe(c), d)
+					}
+				}
+				fresh := reflect.New(typ)
+				if codec.Unmarshal(append([]byte(nil), enc...), fresh.Interface()) == nil {
+					keep := gotV
+					gotV = fresh.Elem()
+					f := check(" (after a caller wrote through the pointer fields of an earlier decoded value)")
+					gotV = keep
+					if f != nil {
+						f.Fingerprint = site + "/decoded-values-share-memory"
+						return f
+					}
+				}
+			}
+		}
+	}
 	// UnmarshalAs
 	var as any
 	if p := try(func() { as, err = codec.UnmarshalAs(append([]byte(nil), enc...), reflect.New(typ).Elem().Interface()) }); p != nil || err != nil {
